@@ -868,6 +868,7 @@ type GenOpts struct {
 	StartNonce   *uint64
 	UsedInGen    bool
 	UpperPairGen bool // link a pair through genesis with upper-case local token
+	MixedDenom   bool // in a fifth of the cases the minting denom has upper-case letters ("uUSDC")
 }
 
 func (g *G) drawGenesis(o GenOpts) *GenSpec {
@@ -897,6 +898,9 @@ func (g *G) drawGenesis(o GenOpts) *GenSpec {
 		gs.NextNonce = rapid.SampledFrom([]uint64{0, 0, 1, 1<<32 - 1, 1 << 32, 1 << 63, 1<<64 - 1000}).Draw(t, "nextnonce")
 	}
 	denom := "uusdc"
+	if o.MixedDenom && rapid.IntRange(0, 4).Draw(t, "mixeddenom") == 0 {
+		denom = "uUSDC"
+	}
 	fold := rapid.IntRange(0, 3).Draw(t, "fold") == 0
 	if o.Fold != nil {
 		fold = *o.Fold
@@ -925,7 +929,7 @@ func (g *G) drawGenesis(o GenOpts) *GenSpec {
 		}
 	}
 	if rapid.IntRange(0, 2).Draw(t, "haslimit") == 0 {
-		gs.Limits = append(gs.Limits, LimitSpec{Denom: denom, Amount: rapid.SampledFrom([]string{"1", "1000", "1000000", "18446744073709551616"}).Draw(t, "limit")})
+		gs.Limits = append(gs.Limits, LimitSpec{Denom: strings.ToLower(denom), Amount: rapid.SampledFrom([]string{"1", "1000", "1000000", "18446744073709551616"}).Draw(t, "limit")})
 	}
 	if o.UsedInGen {
 		for i := 0; i < rapid.IntRange(0, 3).Draw(t, "nused"); i++ {
